@@ -4,7 +4,7 @@
     [DSub s] = subset encoding, [DVec x] = integer-count / binary-indicator / real-contribution encoding;
     [res_eq] = same shape and equal rationals; norms are represented by their squares). *)
 From Coq Require Import PrimFloat Permutation.
-From PV Require Import Lib.Common Lib.FloatK Model.C05_Latent Model.C05_Factory Proofs.C05_Latent Proofs.C05_Factory.
+From PV Require Import Lib.Common Lib.FloatK Model.C05_Latent Model.C05_Factory Proofs.C05_Latent Proofs.C05_Avail Proofs.C05_Factory.
 Local Open Scope Q_scope.
 
 (** Every family's subset formula is its contribution-vector formula ("the definition") evaluated at
@@ -69,32 +69,50 @@ Theorem C05_quad_is_cKc : forall n C c, normsq_vec n C c == qform n (gram n C) c
 Proof. exact quad_is_cKc. Qed.
 Print Assumptions C05_quad_is_cKc.
 
-(** allele availability (MOGS): the binary64 tests on the rounded-reciprocal frequency equal the definition on the
-    allele counts for every selection of at most 1024 chromosome copies whose size N satisfies fl(fl(1/N)*N) = 1 ... *)
-Theorem C05_mogs_availability_partial : forall pl G w tf p t s,
-  (1 <= popsize pl s <= 1024)%Z -> size_ok (popsize pl s) = true -> geno_ok pl G s p ->
+(** allele availability: the frequency of a selection is one correctly rounded binary64 division  count / (ploidy*k);
+    it is exactly 1.0 (0.0) iff every (no) selected chromosome copy carries the allele, for up to 2^53 copies ... *)
+Theorem C05_pfreq_fixed_iff : forall c N : Z, (0 <= c <= N)%Z -> (0 < N <= 2^53)%Z ->
+  (PrimFloat.eqb (pfreq_of_count c N) 1%float = true <-> c = N) /\ (PrimFloat.eqb (pfreq_of_count c N) 0%float = true <-> c = 0%Z).
+Proof. exact pfreq_fixed_iff. Qed.
+Print Assumptions C05_pfreq_fixed_iff.
+(** ... so the binary64 tests of MOGS (pfreq <= 0.0, pfreq >= 1.0) equal the definition on the allele counts: for every
+    ploidy, genotype matrix, weights, target frequencies and every selection of at most 2^53 chromosome copies *)
+Theorem C05_mogs_availability : forall pl G w tf p t s,
+  (0 < popsize pl s <= 2^53)%Z -> geno_ok pl G s p ->
   mogs_pau_code pl G w tf p t s = pau_def pl G w tf p t s.
 Proof. exact mogs_pau_exact. Qed.
-Print Assumptions C05_mogs_availability_partial.
-(** ... and fail at the other sizes (49 copies all carrying the allele, target 1/2: reported available) *)
-Theorem C05_pfreq_reciprocal_refuted : exists c N tfv, (1 <= N <= 1024)%Z /\ (0 <= c <= N)%Z /\ t_het tfv = true /\
-  mogs_unavail_code (frecipZ c N) tfv <> unavail_def c N tfv /\ pau_unavail_code (frecipZ c N) tfv <> unavail_def c N tfv.
-Proof. exact pfreq_reciprocal_refuted. Qed.
-Print Assumptions C05_pfreq_reciprocal_refuted.
-Theorem C05_bad_sizes_256 : filter (fun N => negb (size_ok (Z.of_nat N))) (seq 1 256) = [49; 98; 103; 107; 161; 187; 196; 197; 206; 214; 237; 239; 249; 253]%nat.
-Proof. exact bad_sizes_256. Qed.
-Print Assumptions C05_bad_sizes_256.
-(** allele availability (PAU): right for targets strictly between 0 and 1, wrong for a target of exactly 1 or 0
-    because the setter computes tmajor with the tminor test *)
-Theorem C05_pau_availability_partial : forall pl G w tf p t s,
-  (1 <= popsize pl s <= 1024)%Z -> size_ok (popsize pl s) = true -> geno_ok pl G s p -> targets_het tf p t ->
+Print Assumptions C05_mogs_availability.
+(** ... and so do the tests of PAU (pfreq < 1.0, pfreq > 0.0 against tminor / thet / tmajor), for every target that is a
+    frequency (0 <= tfreq <= 1, the targets 0 and 1 included) *)
+Theorem C05_pau_availability : forall pl G w tf p t s,
+  (0 < popsize pl s <= 2^53)%Z -> geno_ok pl G s p -> targets_unit tf p t ->
   pau_code pl G w tf p t s = pau_def pl G w tf p t s.
-Proof. exact pau_partial. Qed.
-Print Assumptions C05_pau_availability_partial.
-Theorem C05_pau_tmajor_refuted : exists c N tfv, (1 <= N <= 1024)%Z /\ (0 <= c <= N)%Z /\ size_ok N = true /\
-  pau_unavail_code (frecipZ c N) tfv <> unavail_def c N tfv.
-Proof. exact pau_tmajor_refuted. Qed.
-Print Assumptions C05_pau_tmajor_refuted.
+Proof. exact pau_exact. Qed.
+Print Assumptions C05_pau_availability.
+(** [geno_ok] is what a genotype matrix with entries in 0..ploidy satisfies *)
+Theorem C05_genotype_counts_in_range : forall pl G s p, (0 <= pl)%Z ->
+  (forall i j, In i s -> (j < p)%nat -> (0 <= zget G i j <= pl)%Z) -> geno_ok pl G s p.
+Proof. exact geno_ok_of_entries. Qed.
+Print Assumptions C05_genotype_counts_in_range.
+(** regression witnesses about the FORMER code (definitions [old_...] of the model; not used by [latent]):
+    the rounded reciprocal (1.0/N)*count failed at N = 49 (all 49 copies carry the allele, target 1/2: reported available) ... *)
+Theorem C05_old_pfreq_reciprocal_refuted : exists c N tfv, (1 <= N <= 1024)%Z /\ (0 <= c <= N)%Z /\ t_het tfv = true /\
+  mogs_unavail_code (old_pfreq_of_count c N) tfv <> unavail_def c N tfv /\ pau_unavail_code (old_pfreq_of_count c N) tfv <> unavail_def c N tfv.
+Proof. exact old_pfreq_reciprocal_refuted. Qed.
+Print Assumptions C05_old_pfreq_reciprocal_refuted.
+Theorem C05_old_bad_sizes_256 : filter (fun N => negb (old_size_ok (Z.of_nat N))) (seq 1 256) = [49; 98; 103; 107; 161; 187; 196; 197; 206; 214; 237; 239; 249; 253]%nat.
+Proof. exact old_bad_sizes_256. Qed.
+Print Assumptions C05_old_bad_sizes_256.
+(** ... and tmajor computed with the tminor test reported a locus fixed for the wanted allele (target 1) as lacking it *)
+Theorem C05_old_pau_tmajor_refuted : exists c N tfv, (1 <= N <= 1024)%Z /\ (0 <= c <= N)%Z /\ t_unit tfv = true /\
+  old_pau_unavail_code (pfreq_of_count c N) tfv <> unavail_def c N tfv.
+Proof. exact old_pau_tmajor_refuted. Qed.
+Print Assumptions C05_old_pau_tmajor_refuted.
+
+(** the declared number of latent values ([nlatent]) is the length of the latent vector: every family, encoding, input *)
+Theorem C05_nlatent_declared : forall n fd d v, latent n fd d = Some v -> length v = nlatent_of fd.
+Proof. exact latent_length. Qed.
+Print Assumptions C05_nlatent_declared.
 
 (** factory data follow the population's taxon order: for the population re-ordered by any index list [pi]
     (new taxon i = old taxon pi_i) the breeding values and the haplotype block values are the re-ordered ones *)
@@ -121,14 +139,15 @@ Example C05_hyps_satisfiable :
   has_vec (FOcs 1 [[1]; [2]; [3]] [[1; 1#2; 0]; [0; 1; 1#4]; [0; 0; 1]]) = true /\ in_range 3 [2; 0]%nat /\ [2; 0]%nat <> [] /\ NoDup [2; 0]%nat
   /\ fam_ok (FFam 1 [[1]; [2]; [3]] [5; 3; 5]%Z) [2; 0]%nat /\ Permutation [2; 0]%nat [0; 2]%nat
   /\ guard_eps <= Qabs' (qsum [1#4; 1#2]) /\ guard_eps <= Qabs' (qsum (map (Qmult 3) [1#4; 1#2]))
-  /\ (1 <= popsize 2 [0; 1; 2]%nat <= 1024)%Z /\ size_ok (popsize 2 [0; 1; 2]%nat) = true
-  /\ geno_ok 2 [[2; 0]; [1; 1]; [2; 0]]%Z [0; 1; 2]%nat 2 /\ targets_het [[1#2]; [1#4]] 2 1.
+  /\ (0 < popsize 2 [0; 1; 2]%nat <= 2^53)%Z
+  /\ geno_ok 2 [[2; 0]; [1; 1]; [2; 0]]%Z [0; 1; 2]%nat 2 /\ targets_unit [[1]; [0]] 2 1
+  /\ latent 3 (FPau 2 [[2; 0]; [1; 1]; [2; 0]]%Z [[1]; [1]] [[1]; [0]] 2 1) (DSub [0; 1; 2]%nat) = Some [Ex 0].
 Proof.
   split; [reflexivity|]. split; [intros i [<-|[<-|[]]]; lia|]. split; [discriminate|]. split; [repeat constructor; cbn; intuition lia|].
   split; [cbn; repeat constructor; cbn; intuition lia|]. split; [apply perm_swap|].
   split; [apply Qle_bool_iff; vm_compute; reflexivity|]. split; [apply Qle_bool_iff; vm_compute; reflexivity|].
-  split; [vm_compute; split; discriminate|]. split; [vm_compute; reflexivity|].
-  split.
-  - intros j Hj. destruct j as [|[|j]]; [vm_compute; split; discriminate | vm_compute; split; discriminate | lia].
-  - intros j q Hj Hq. destruct j as [|[|j]]; [| |lia]; (destruct q as [|q]; [reflexivity | lia]).
+  split; [vm_compute; split; [reflexivity | discriminate]|].
+  split; [intros j Hj; destruct j as [|[|j]]; [vm_compute; split; discriminate | vm_compute; split; discriminate | lia]|].
+  split; [intros j q Hj Hq; destruct j as [|[|j]]; [| |lia]; (destruct q as [|q]; [reflexivity | lia])|].
+  vm_compute. reflexivity.
 Qed.
